@@ -40,9 +40,9 @@ try:
     rc1, o1 = sh("go build ./... && go build -tags noasm ./... && go build -tags verif ./...", cwd=wt)
     res["ran"]["builds"] = rc1 == 0
     # pinned suite
-    rc2, o2 = sh("go test -json -vet=off -count=1 -timeout 25m ./... > /tmp/seed_suite.json 2>/dev/null; true", cwd=wt)
+    rc2, o2 = sh(f"go test -json -vet=off -count=1 -timeout 25m ./... > /tmp/seed_suite_{os.getpid()}.json 2>/dev/null; true", cwd=wt)
     passed = set()
-    for l in open("/tmp/seed_suite.json"):
+    for l in open(f"/tmp/seed_suite_{os.getpid()}.json"):
         try: e = json.loads(l)
         except Exception: continue
         if e.get("Action") in ("pass", "skip") and e.get("Test"): passed.add(e["Package"] + "::" + e["Test"])
@@ -70,7 +70,7 @@ ok = res["ran"].get("builds") and not res["ran"].get("suite_missing") and res["r
 res["valid"] = bool(ok)
 print(json.dumps({k: v for k, v in res["ran"].items() if "output" not in k}))
 checks = {}
-if ok:
+if ok and os.environ.get("SEED_VALIDATE_ONLY") != "1":
     rc, o = sh(["git", "-C", "/repo", "status", "--porcelain", "--untracked-files=no"]); assert o.strip() == "", "repo dirty: " + o
     rc, o = apply("/repo"); assert rc == 0, o
     try:
